@@ -34,17 +34,6 @@ UP := ++pre | post++ | --pre | post--
 T  := a | (. o p) | ([] o K)
 K  := "p" | (call mk "p") | (call log "q")
 `},
-	{name: "completion", start: "P", quickN: 6, thorN: 8, pairN: 5, text: `
-P  := @0 (prog (var n 0) SL)
-SL := @0 S | @0 (@ S SL)
-S  := (expr N) | (var c N) | (empty) | (block SL) | (block) | (if C S) | (if C S S) | (label LB S) | (break) | (break LB) | (continue) | (continue LB)
-    | (dowhile S false) | (while (< (post++ n) 2) S) | (while false S) | (for (var j 0) (< j 0) _ S) | (for (let i 0) (< i 2) (post++ i) S) | (forof (var x) (arr 1 2) S) | (forin (var k) (obj (prop p 1)) S)
-    | (try (block SL) (catch e SL) _) | (try (block SL) _ (finally SL)) | (try (block SL) (catch e SL) (finally SL))
-    | (switch N (case 1 SL) (default SL)) | (switch N (default SL) (case 2 SL)) | (throw N) | (let d N)
-N  := 1 | 2
-C  := true | false | (call log 1) | (call log 0)
-LB := L1 | L2
-`},
 	{name: "func", start: "P", quickN: 5, thorN: 7, pairN: 4, text: `
 P   := @0 (prog (fdecl f PS BL) (expr (call log CALL)))
 PS  := (params) | (params a) | (params a b) | (params (def a DV)) | (params a (def b DV)) | (params (rest a)) | (params a (rest b))
@@ -103,6 +92,17 @@ PP  := (ps a) | (ps a DV) | (p x b) | (p x b DV) | (p y (apat a)) | (p x (. o p)
 DV  := 1 | (call log 5) | b | (call thr 1)
 SRC := (arr 1 2) | (call it 2) | (obj (prop a 1) (prop x 2)) | (obj (get a (expr (call log "ga")) (return 1))) | undefined | "st" | (arr) | (obj (prop y (call it 1)))
 `},
+	{name: "completion", start: "P", quickN: 5, thorN: 7, pairN: 4, text: `
+P  := @0 (prog (var n 0) SL)
+SL := @0 S | @0 (@ S SL)
+S  := (expr N) | (var c N) | (empty) | (block SL) | (if C S) | (if C S S) | (label LB S) | (break) | (break LB) | (continue)
+    | (dowhile S false) | (while (< (post++ n) 2) S) | (while false S) | (for (var j 0) (< j 0) _ S) | (for (let i 0) (< i 2) (post++ i) S) | (forof (var x) (arr 1 2) S)
+    | (try (block SL) (catch e SL) _) | (try (block SL) _ (finally SL))
+    | (switch N (case 1 SL) (default SL)) | (switch N (default SL) (case 2 SL)) | (throw N)
+N  := 1 | 2
+C  := true | false | (call log 1)
+LB := L1 | L2
+`},
 }
 
 // corpus: fixed regression programs, run first in every tier: the minimal inputs of the known findings and
@@ -113,6 +113,96 @@ var corpus = []string{
 	// known finding: compound assignment / update on o[k] converts the key twice
 	`(prog (var o (obj (prop a 1))) (expr (post++ ([] o (call mk "a")))))`,
 	`(prog (var o (obj (prop a 1))) (expr (+= ([] o (call mk "a")) 1)))`,
+	// ---- minimal inputs of the other known findings ----
+	`(prog (try (block (expr (call f (call log 1)))) (catch e (expr (call log e))) _))`,
+	`(prog (let a 1) (fdecl f (params) (return a)) (expr (call log (call f))))`,
+	`(prog (expr (call log (call (arrowe (params) (+ 1 2))))))`,
+	`(prog (try (block (const a (= a 1))) (catch e (expr (call log e))) _))`,
+	`(prog (var r 0) (for (let i 0) (< i 3) (post++ i) (block (if false (continue)) (expr (+= r i)))) (expr (call log r)))`,
+	`(prog (var r 0) (for (let i 0) (< i 3) (post++ i) (block (if false (break)) (expr (+= r i)))) (expr (call log r)))`,
+	`(prog (fdecl f (params a) (var b) (return (call (arrowe (params) (arr a b))))) (expr (call log (call f 1 2))))`,
+	`(prog (fdecl f (params (def a (arrowe (params) b)) (def b 1)) (return b)) (expr (call log (call f undefined 2))))`,
+	`(prog (fdecl f (params (rest a)) (var a 1) (return a)) (expr (call log (call f))))`,
+	`(prog (fdecl f (params (def a a)) (return ([] arguments 0))) (expr (call log (call f 1))))`,
+	`(prog (classdecl B _ (method m (params) (return 1))) (classdecl A B (field f (superdot m))) (expr (call log (typeof (. (new A) f)))))`,
+	// ---- anchors: scopes, closures, TDZ ----
+	`(prog (const a 1) (expr (call log (call (arrowe (params) (call (arrowe (params) a)))))))`,
+	`(prog (let a 1) (var f (arrowe (params) a)) (expr (= a 2)) (expr (call log (call f))))`,
+	`(prog (fdecl f (params) (return a)) (try (block (expr (call log (call f)))) (catch e (expr (call log e))) _) (let a 1) (expr (call log (call f))))`,
+	`(prog (let a 1) (block (let a 2) (expr (call log a)) (block (let a 3) (expr (call log a)))) (expr (call log a)))`,
+	`(prog (var e 1) (var f) (try (block (throw 2)) (catch e (expr (= f (arrowe (params) e))) (expr (= e 3))) _) (expr (call log (arr e (call f)))))`,
+	`(prog (var g (func f (params n) (return (?: (< n 1) 0 (+ n (call f (- n 1))))))) (expr (call log (call g 3))))`,
+	`(prog (expr (call log (typeof a))) (block (var a 1)) (expr (call log a)))`,
+	`(prog (classdecl A _ (smethod s (params) (return (typeof A)))) (var B A) (expr (= A 1)) (expr (call log (call (. B s)))))`,
+	`(prog (switch 1 (case 0 (let a 1)) (case 1 (try (block (expr (call log a))) (catch e (expr (call log e))) _))))`,
+	`(prog (var fs (arr)) (for (let i 0) (< i 2) (, (call (. fs push) (arrowe (params) i)) (post++ i)) (empty)) (forof (var g) fs (expr (call log (call g)))))`,
+	`(prog (var fs (arr)) (forof (const x) (arr 1 2) (expr (call (. fs push) (arrowe (params) x)))) (expr (call log (call ([] fs 0)))) (expr (call log (call ([] fs 1)))))`,
+	`(prog (var fs (arr)) (forin (let k) (obj (prop p 1) (prop q 2)) (expr (call (. fs push) (arrowe (params) k)))) (expr (call log (call ([] fs 0)))) (expr (call log (call ([] fs 1)))))`,
+	`(prog (var fs (arr)) (var n 0) (while (< (post++ n) 2) (block (let j n) (expr (call (. fs push) (arrowe (params) (post++ j)))))) (expr (call log (arr (call ([] fs 0)) (call ([] fs 0)) (call ([] fs 1))))))`,
+	`(prog (var fs (arr)) (label L (for (let i 0) (< i 3) (post++ i) (for (let j 0) (< j 3) (post++ j) (block (if (== j 1) (continue L)) (expr (call (. fs push) (arrowe (params) (+ (* i 10) j)))))))) (forof (var g) fs (expr (call log (call g)))))`,
+	`(prog (fdecl mk2 (params) (var c 0) (return (obj (method inc (params) (return (++pre c))) (method get (params) (return c))))) (var p (call mk2)) (var q (call mk2)) (expr (call (. p inc))) (expr (call (. p inc))) (expr (call (. q inc))) (expr (call log (arr (call (. p get)) (call (. q get))))))`,
+	`(prog (var a 1) (fdecl f (params) (expr (call log a)) (var a 2) (expr (call log a))) (expr (call f)) (expr (call log a)))`,
+	`(prog (fdecl f (params) (return (typeof g)) (fdecl g (params))) (expr (call log (call f))))`,
+	`(prog (fdecl f (params a) (block (let a 2) (expr (call log a))) (return a)) (expr (call log (call f 1))))`,
+	// ---- anchors: operators, conversions, evaluation order ----
+	`(prog (var o (obj (get g (expr (call log "g")) (return 2)) (set g v (expr (call log v))))) (expr (*= (. o g) (call log 3))) (expr (call log "end")))`,
+	`(prog (var o (obj (get g (expr (call log "g")) (return 0)) (set g v (expr (call log v))))) (expr (||= (. o g) (call log 3))) (expr (&&= (. o g) (call log 4))) (expr (??= (. o g) (call log 5))) (expr (call log "end")))`,
+	`(prog (var o (obj (get g (expr (call log "g")) (return 2)) (set g v (expr (call log v))))) (expr (call log (post++ (. o g)))) (expr (call log (--pre (. o g)))) (expr (-= (. o g) 1)))`,
+	`(prog (expr (call log (+ (call mk 1) (call mk 2)))) (expr (call log (< (call mk 2) (call mk 1)))) (expr (call log (> (call mk 2) (call mk 1)))) (expr (call log (== (call mk 1) 1))) (expr (call log (== 1 (call mk 1)))))`,
+	`(prog (var o (obj (prop p 1))) (expr (call log (in (call mk "p") o))) (expr (call log ([] o (call mk "p")))) (expr (call log (tpl "a" (call mk 1) "b"))) (expr (call log (+ "" (call mk 1)))) (expr (call log (* (call mko 2) (call mk 3)))))`,
+	`(prog (expr (call log (&& (call log 0) (call log 1)))) (expr (call log (|| (call log 0) (call log 1)))) (expr (call log (?? null (call log 2)))) (expr (call log (?? (call log null) 3))) (expr (?: (call log 0) (call log 1) (call log 2))))`,
+	`(prog (var o (obj)) (expr (= (. (call log o) p) (call log 2))) (expr (= ([] o (call log "q")) (call log 3))) (expr (call log (arr (. o p) (. o q)))) (expr (call log (delete (. o p)))) (expr (call log (typeof (. o p)))) (expr (call log (typeof nope))) (expr (call log (void (call log 1)))))`,
+	`(prog (var o (obj (method m (params a b) (return (arr (=== this o) a b))))) (expr (call log (call (. (call log o) m) (call log 1) (call log 2)))) (expr (call log (call ([] o "m") 3))))`,
+	`(prog (var a 1) (expr (call log (+ a (= a 5)))) (expr (call log (+ (post++ a) a))) (expr (call log (, (= a 2) (+= a (*= a 3))))) (expr (call log a)))`,
+	`(prog (var a (arr 1 2)) (var i 0) (expr (= ([] a (post++ i)) (post++ i))) (expr (call log (arr a i))) (expr (+= ([] a (call log 0)) (call log 5))) (expr (call log a)))`,
+	`(prog (expr (call log (arr (neg (call mk 1)) (pos (call mk "2")) (~ (call mk 1)) (! (call mk 0)) (typeof (call mk 1)) (neg 0) (neg (neg 0.5))))))`,
+	`(prog (expr (call log (arr (+ 1 2) (+ "a" 1) (- "3" 1) (* 2 0.5) (/ 1 0) (% 5 3) (** 2 3) (<< 1 3) (>>> (neg 1) 28) (& 6 3) (| 6 3) (^ 6 3) (< "a" "b") (== null undefined) (=== 1 "1") (!= 1 2)))))`,
+	`(prog (try (block (expr (+ (call thr 1) (call log 2)))) (catch e (expr (call log e))) _) (try (block (expr (call log (+ (call mko 1) 1)))) (catch e (expr (call log e))) _) (try (block (expr (call (. undefined x)))) (catch e (expr (call log e))) _) (try (block (expr (call (call log 5)))) (catch e (expr (call log e))) _))`,
+	// ---- anchors: completion values ----
+	`(prog (dowhile (expr 1) false))`,
+	`(prog (expr 1) (if true (block)))`,
+	`(prog (expr 1) (label L (block (expr 2) (break L))))`,
+	`(prog (label L (try (block (expr 1)) _ (finally (break L)))))`,
+	`(prog (var n 0) (dowhile (try (block (expr 1) (continue)) _ (finally (expr 2))) (< (post++ n) 1)))`,
+	`(prog (expr 9) (var n 0) (while (< (post++ n) 3) (block (if (== n 2) (block (expr n) (break))) (expr 7))))`,
+	`(prog (expr 9) (forof (var x) (arr 1 2 3) (switch x (case 1 (expr 10)) (case 2 (expr 20) (break)) (default (continue)))))`,
+	`(prog (expr 9) (try (block (throw 1)) (catch e (var q 1)) _))`,
+	`(prog (expr 9) (try (block (expr 1)) _ (finally (expr 2))))`,
+	`(prog (expr 9) (block (var a 1) (fdecl g (params))) (empty))`,
+	`(prog (label L1 (label L2 (for (var i 0) (< i 2) (post++ i) (block (expr i) (if (== i 0) (continue L1)) (break L2))))))`,
+	// ---- anchors: functions, parameters, arguments ----
+	`(prog (fdecl f (params a (def b (+ a 1)) (def c (arrowe (params) b))) (return (arr a b (call c)))) (expr (call log (call f 1))) (expr (call log (call f 1 5))) (expr (call log (call f 1 undefined (arrowe (params) 9)))))`,
+	`(prog (fdecl f (params a (rest r)) (return (arr a r (. arguments length)))) (expr (call log (call f))) (expr (call log (call f 1 2 3))) (expr (call log (call f (spread (arr 1 2))))))`,
+	`(prog (fdecl f (params (opat (ps a) (ps b 2)) (apat c (def d 4))) (return (arr a b c d))) (expr (call log (call f (obj (prop a 1)) (arr 3)))) (try (block (expr (call f))) (catch e (expr (call log e))) _))`,
+	`(prog (fdecl f (params) (return (call (arrowe (params) (arr ([] arguments 0) (typeof this)))))) (expr (call log (call f 5))) (expr (call log (call (. f call) 7 6))))`,
+	`(prog (fdecl f (params a b) (expr (= ([] arguments 1) 9)) (expr (= a 8)) (return (arr a b ([] arguments 0) ([] arguments 1) (. arguments length)))) (expr (call log (call f 1 2))) (expr (call log (call f 1))))`,
+	`(prog (fdecl f (params a) (directive "use strict") (expr (= ([] arguments 0) 9)) (expr (= a 8)) (return (arr a ([] arguments 0)))) (expr (call log (call f 1))))`,
+	`(prog (fdecl f (params a) (expr (delete ([] arguments 0))) (expr (= a 2)) (return (arr a ([] arguments 0) (. arguments length)))) (expr (call log (call f 1))))`,
+	`(prog (fdecl f (params (def a 1)) (var a) (return a)) (expr (call log (call f))) (fdecl g (params a) (var a) (return a)) (expr (call log (call g 2))) (fdecl h (params a) (var a 3) (return (arr a ([] arguments 0)))) (expr (call log (call h 2))))`,
+	`(prog (fdecl f (params a) (fdecl a (params)) (return (arr (typeof a) (typeof ([] arguments 0))))) (expr (call log (call f 1))))`,
+	`(prog (fdecl f (params (def a (call log 1)) (def b (call log 2))) (return (+ a b))) (expr (call log (call f))) (expr (call log (call f 5))) (expr (call log (call f undefined 5))))`,
+	`(prog (var x 1) (fdecl f (params (def a (arrowe (params) x))) (var x 2) (return (arr (call a) x))) (expr (call log (call f))))`,
+	`(prog (fdecl F (params a) (expr (= (. this a) a))) (var o (new F 1)) (expr (call log (arr (. o a) (instanceof o F) (=== (. o constructor) F)))) (fdecl G (params) (return (obj (prop z 1)))) (expr (call log (. (new G) z))))`,
+	// ---- anchors: classes, accessors, this ----
+	`(prog (classdecl A _ (ctor (params x) (expr (call log "A")) (expr (= (. this x) x))) (get g (return (. this x))) (set g v (expr (= (. this x) v))) (smethod s (params) (return "s")) (sfield t (call log "t")) (field f (call log "f"))) (var o (new A 1)) (expr (= (. o g) 2)) (expr (call log (arr (. o g) (. o f) (. A t) (call (. A s))))))`,
+	`(prog (classdecl B _ (ctor (params x) (expr (call log "B")) (expr (= (. this x) x))) (method m (params) (return (+ "Bm" (. this x))))) (classdecl A B (ctor (params) (try (block (expr (call log this))) (catch e (expr (call log e))) _) (expr (super 5)) (expr (call log (call (superdot m))))) (method m (params) (return "Am"))) (var o (new A)) (expr (call log (arr (call (. o m)) (instanceof o B)))))`,
+	`(prog (classdecl B _) (classdecl A B (ctor (params) (return (obj (prop z 1))))) (expr (call log (. (new A) z))) (classdecl C B (ctor (params))) (try (block (expr (new C))) (catch e (expr (call log e))) _) (try (block (expr (call A))) (catch e (expr (call log e))) _))`,
+	`(prog (classdecl B _ (ctor (params (rest r)) (expr (call log r)))) (classdecl A B (field f 1)) (expr (call log (. (new A 1 2) f))))`,
+	`(prog (var o (obj (prop x 1) (method m (params) (return (arrowe (params) (. this x)))) (get g (return (. this x))) (cprop (call log "k") (call log "v")) (short o2) (spread (obj (prop y 2))))) (var o2 3) (expr (call log (arr (call (call (. o m))) (. o g) (. o k) (. o y) (. o o2)))))`,
+	`(prog (var C (class K _ (smethod s (params) (return (typeof K))))) (expr (call log (arr (call (. C s)) (typeof K)))))`,
+	// ---- anchors: destructuring ----
+	`(prog (let (apat a) (call it 3)) (expr (call log a)) (let (apat b c d) (call it 2)) (expr (call log (arr b c d))) (let (apat _ e (rest r)) (call it 4)) (expr (call log (arr e r))))`,
+	`(prog (var o (obj)) (expr (= (apat (. (call log o) p) ([] o (call log "q"))) (arr 1 2))) (expr (call log (arr (. o p) (. o q)))))`,
+	`(prog (var a) (var b) (expr (= (opat (ps a (call log 1)) (p x b (call log 2))) (obj (prop a undefined) (prop x 5)))) (expr (call log (arr a b))))`,
+	`(prog (forof (let (apat a b)) (arr (arr 1 2) (arr 3 4)) (expr (call log (+ a b)))) (forof (let (opat (ps x))) (arr (obj (prop x 1))) (expr (call log x))))`,
+	`(prog (try (block (let (apat a (def b (call thr 1))) (call it 3))) (catch e (expr (call log e))) _) (try (block (let (opat (ps a)) null)) (catch e (expr (call log e))) _))`,
+	`(prog (var a 1) (var b 2) (expr (= (apat a b) (arr b a))) (expr (call log (arr a b))) (let (opat (p x (opat (ps y))) (rest r)) (obj (prop x (obj (prop y 1))) (prop z 2))) (expr (call log (arr y (. r z)))))`,
+	// ---- anchors: control flow ----
+	`(prog (fdecl f (params) (try (block (return (call log 1))) _ (finally (expr (call log "f"))))) (expr (call log (call f))) (fdecl g (params) (try (block (return 1)) _ (finally (return 2)))) (expr (call log (call g))) (fdecl h (params) (forof (var x) (call it 3) (try (block (return x)) _ (finally (expr (call log "fin")))))) (expr (call log (call h))))`,
+	`(prog (label L (for (var i 0) (< i 3) (post++ i) (try (block (if (== i 1) (continue L)) (if (== i 2) (break L)) (expr (call log i))) _ (finally (expr (call log (+ "f" i))))))))`,
+	`(prog (forof (var x) (arr 1 2 3) (switch x (case 2 (let y x) (expr (call log (arrowe (params) y))) (break)) (default (expr (call log x))) (case 3 (expr (call log "three"))))))`,
+	`(prog (try (block (try (block (throw 1)) _ (finally (expr (call log "f1"))))) (catch e (expr (call log e)) (try (block (throw 2)) (catch e (expr (call log e))) (finally (expr (call log "f2"))))) _))`,
+	`(prog (var i 0) (label L (dowhile (block (expr (post++ i)) (if (< i 3) (continue L)) (expr (call log i))) (< i 5))))`,
 	// anchors
 	`(prog (let a 1) (fdecl f (params) (return a)) (expr (call log (call f))))`,
 	`(prog (expr (call log (typeof a))) (var a 1))`,
